@@ -369,6 +369,7 @@ func c11R5(c *Ctx, id string) {
 			c.check(id+":bbolt.Open:openFile", open, open.Pos(), "one openFile call", false, fmt.Sprintf("%d calls", len(ofs)))
 			return
 		}
+		checkOpenedBeforeOpenFile(c, id)
 		after := reach([]ssa.Instruction{ofs[0].(ssa.Instruction)}, nil, nil, nil)
 		noClose := reach([]ssa.Instruction{ofs[0].(ssa.Instruction)}, nil, func(in ssa.Instruction) bool { return isCallTo(in, "bbolt.(*DB).close") }, nil)
 		seen := map[string]int{}
